@@ -1,5 +1,4 @@
 // lane N suites appended to src/blockchain/parser/chain.rs   (C03, C04, C09, C11, C17)
-use crate::blockchain::parser::blkfile::verif_native::is_open;
 use bitcoin::hashes::Hash as _;
 
 fn hashes(chain: &[BlockSpec]) -> Vec<[u8; 32]> { chain.iter().map(|b| b.hash()).collect() }
@@ -176,6 +175,21 @@ fn c09_verify_rejects_inconsistent_blocks() {
             }
         }
     }
+    // a length field of the LAST block of the last file blown up: the parse runs past the end of the file -- the run
+    // must fail at that height (an error, not "no such block")
+    for (what, patch_at) in [("input count of the coinbase", 85usize), ("script length of the coinbase input", 122)] {
+        cases += 1;
+        let mut d = DataDir::new();
+        for (i, b) in chain.iter().enumerate() {
+            if i == 4 { let mut m = b.ser(); m[patch_at] = 0xfc; let off = d.put_block(0, 0xd9b4bef9, &m, &[]);
+                d.recs.push(IndexRec { hash: b.hash(), version: 1, height: 4, status: ST_ACTIVE, ntx: 1, file: 0, offset: off }); }
+            else { d.add(0, i as u64, b, ST_ACTIVE); }
+        }
+        d.write();
+        let r = fetch(d.path(), "bitcoin", 1, None, true, &[4]);
+        let rejected = match &r { Ok(v) => v[0].is_err(), Err(_) => true };
+        check(rejected, suite, "C09:verify_rejects_changed_block", &format!("height 4 (last block of the file): {} set to 0xfc, parse runs past EOF", what), &format!("{:?}", r.as_ref().map(|v| v[0].as_ref().map(|x| x.map(|y| short(&y))))), "Err");
+    }
     // a foreign (self-consistent) block swapped in at height 3: prev-hash link must fail, also as first processed block
     { let foreign = chain_with_txcounts(&[1, 1, 1, 2]);
       for s in [0u64, 3] { cases += 1;
@@ -237,8 +251,9 @@ fn c11_xor_directories() {
     finish(suite, cases);
 }
 
-/// C17 (bounded: the layouts below): after delivering height h in ascending order, every open blk file still holds
-/// a block of a height yet to come; a file needed again is reopened
+/// C17 (bounded: the layouts below x 3 ranges x {plain, --verify, xor key}): after delivering height h in ascending order,
+/// every blk file still open (as seen in /proc/self/fd) holds a block of a height yet to come; a file needed again is
+/// transparently reopened and delivers the right block
 #[test]
 fn c17_open_files_bounded() {
     let suite = "c17_open_files_bounded";
@@ -251,37 +266,45 @@ fn c17_open_files_bounded() {
         ("interleaved two files", Box::new(|h| h % 2)),
         ("overlapping spans", Box::new(|h| if h % 5 == 4 { h / 5 + 1 } else { h / 5 })),
         ("file revisited late", Box::new(|h| if h == 20 { 0 } else { h / 4 })),
+        ("descending files", Box::new(|h| 40 - h / 3)),
     ];
     for (name, f) in layouts.iter() {
-        for (s, e) in [(0u64, None), (5, Some(17)), (7, None)] {
+        for (s, e) in [(0u64, None), (5, Some(17)), (7, None)] { for mode in 0..4 {
+            let verify = mode == 1;
             let mut d = DataDir::new();
-            for h in 0..n { d.add(f(h), h, &chain[h as usize], ST_ACTIVE); }
-            // stale fork blocks with data stored at the tail of earlier files, at heights far above the file's own
-            // blocks; their hashes sort BEFORE the active block of that height, so the active chain wins the height
+            // mode 3: blocks of a file stored in descending height order (higher heights at lower offsets)
+            let order: Vec<u64> = if mode == 3 { (0..n).rev().collect() } else { (0..n).collect() };
+            for h in order { d.add(f(h), h, &chain[h as usize], ST_ACTIVE); }
+            // stale fork blocks with data stored in earlier files, at heights far above the file's own blocks; their hashes
+            // sort BEFORE the active block of that height, so the active chain wins the height
             for (k, sh) in [(0u64, 13u64), (1, 19), (2, 23)] {
                 let mut stale = BlockSpec::new(chain[(sh - 1) as usize].hash(), 5000 + sh as u32, vec![TxSpec::new(vec![TxIn::coinbase(9)], vec![TxOut::new(1, vec![0x51])])]);
                 loop { if stale.hash() < chain[sh as usize].hash() { break; } stale.nonce += 1; }
                 let off = d.put_block(f(k), 0xd9b4bef9, &stale.ser(), &[]);
                 d.recs.push(IndexRec { hash: stale.hash(), version: 1, height: sh, status: 3 | 8, ntx: 1, file: f(k), offset: off });
             }
+            if mode >= 2 { d.xor_key = Some(vec![0x5a, 0x01, 0xfe, 0x33, 0x90]); }
             d.write();
             let log = Arc::new(Mutex::new(Vec::new()));
-            let opts = options(d.path(), "bitcoin", s, e, false, Box::new(Recorder { log }));
-            let mut st = match ChainStorage::new(&opts) { Ok(x) => x, Err(m) => { fail(suite, "C17:storage_opens", name, &format!("{}", m), "Ok"); continue; } };
+            let s_eff = if verify && s == 0 { 1 } else { s };   // block 0 is not the coin's genesis
+            let opts = options(d.path(), "bitcoin", s_eff, e, verify, Box::new(Recorder { log }));
+            let what = format!("{} range {}..{:?} {}", name, s_eff, e, ["plain", "--verify", "xor", "xor + descending offsets"][mode]);
+            let mut st = match ChainStorage::new(&opts) { Ok(x) => x, Err(m) => { fail(suite, "C17:storage_opens", &what, &format!("{}", m), "Ok"); continue; } };
             let last = e.unwrap_or(n - 1).min(n - 1);
-            for h in s..=last {
+            for h in s_eff..=last {
                 cases += 1;
                 match st.get_block(h) {
-                    Ok(Some(b)) => { check(b.header.hash.to_byte_array() == chain[h as usize].hash(), suite, "C17:reopened_file_delivers_the_right_block", &format!("{} range {}..{:?} height {}", name, s, e, h), "other block", "block h"); }
-                    other => { fail(suite, "C17:reopened_file_delivers_the_right_block", &format!("{} height {}", name, h), &format!("{:?}", other.map(|o| o.is_some())), "Ok(Some)"); }
+                    Ok(Some(b)) => { check(b.header.hash.to_byte_array() == chain[h as usize].hash(), suite, "C17:reopened_file_delivers_the_right_block", &format!("{} height {}", what, h), "other block", "block h"); }
+                    Ok(None) => { fail(suite, "C17:reopened_file_delivers_the_right_block", &format!("{} height {}", what, h), "None", "Ok(Some)"); }
+                    Err(m) => { fail(suite, "C17:reopened_file_delivers_the_right_block", &format!("{} height {}", what, h), &format!("Err {}", m), "Ok(Some)"); }
                 }
-                let open: Vec<u64> = st.blk_files.iter().filter(|(_, b)| is_open(b)).map(|(k, _)| *k).collect();
-                for fno in &open {
-                    let maxh = (0..n).filter(|x| f(*x) == *fno).max().unwrap();
-                    check(maxh > h, suite, "C17:open_files_all_hold_a_block_yet_to_come", &format!("{} range {}..{:?} after height {}", name, s, e, h), &format!("file {} still open, its highest block is {}", fno, maxh), "closed");
+                for fname in open_files_in(d.path()) {
+                    let fno: u64 = match fname.strip_prefix("blk").and_then(|x| x.strip_suffix(".dat")).and_then(|x| x.parse().ok()) { Some(x) => x, None => continue };
+                    let maxh = (0..n).filter(|x| f(*x) == fno).max().unwrap_or(0);
+                    check(maxh > h, suite, "C17:open_files_all_hold_a_block_yet_to_come", &format!("{} after height {}", what, h), &format!("{} still open, its highest block is {}", fname, maxh), "closed");
                 }
             }
-        }
+        } }
     }
     finish(suite, cases);
 }
